@@ -350,7 +350,18 @@ def _p_ghost(interp, args, kwargs, env):
     return u[name]
 
 
+def _p_printed(interp, args, kwargs, env):
+    """printed(): the lines written to standard output so far by print(one string), in order (ghost `stdout`)"""
+    out = []
+    for a, kw in interp.ctx.ghost.get("stdout", []):
+        if kw or len(a) != 1:
+            raise SpecError("printed(): only print(<one value>) calls are modelled")
+        out.append(interp.to_str(a[0]))
+    return out
+
+
 PRIMS = {
+    "printed": Prim("printed", _p_printed),
     "ghost": Prim("ghost", _p_ghost),
     "plist_append": Prim("plist_append", _p_plist_append),
     "plist_last": Prim("plist_last", _p_plist_last),
@@ -424,6 +435,10 @@ def map_set(m, k, v):
 
 def map_get(m, k, d):
     return m.get(k, d)
+
+
+def printed():
+    raise NotImplementedError("printed() is a verifier-only primitive (standard output ghost)")
 
 
 def today():
